@@ -436,7 +436,16 @@ func genNtimed(r *lib.Rng, long bool) {
 			case 0:
 				ops = append(ops, nop{do: false, epoch: epoch})
 			case 1:
-				epoch++ // clock step: the next Do sees a new epoch
+				// clock step: the next Do sees another epoch (usually the next one;
+				// the filter only compares for inequality, so also lower and wrapped ones)
+				switch r.Intn(4) {
+				case 0:
+					epoch--
+				case 1:
+					epoch = lib.Pick(r, uint64(0), 1, ^uint64(0), 1<<63, r.U64())
+				default:
+					epoch++
+				}
 			default:
 				epoch++
 				ops = append(ops, nop{do: false, epoch: epoch})
